@@ -525,6 +525,11 @@ def _header_instances(tier):
             dict(opcode_base=10, dir_format=[('path', 'strp')], ndirs=1, file_format=[('path', 'strp'), ('directory_index', 'data2'), ('timestamp', 'udata'), ('size', 'data4')], nfiles=2),
             dict(opcode_base=13, dir_format=[('path', 'string')], ndirs=1, file_format=[('path', 'string'), ('size', 'data8'), ('timestamp', 'block')], nfiles=1),
             dict(opcode_base=13, dir_format=[('path', 'string')], ndirs=1, file_format=[('path', 'string')], nfiles=1, slack=2),
+            # the same sequence of forms with different content types (neighbouring instances serve as each other's decoy: an
+            # entry parser remembered per form sequence would mix the fields up)
+            dict(opcode_base=13, dir_format=[('path', 'string')], ndirs=1, file_format=[('path', 'string'), ('directory_index', 'udata'), ('size', 'udata')], nfiles=2),
+            dict(opcode_base=13, dir_format=[('path', 'string')], ndirs=1, file_format=[('path', 'string'), ('size', 'udata'), ('directory_index', 'udata')], nfiles=2),
+            dict(opcode_base=13, dir_format=[('path', 'string')], ndirs=1, file_format=[('path', 'string'), ('timestamp', 'udata'), ('size', 'udata')], nfiles=1),
         ]
         for shape in v5:
             out.append(dict(ver=5, fmt64=fmt64, little=little, addr=addr, shape=shape, pad=0))
@@ -572,7 +577,7 @@ HARNESSES = [
            'minimum_instruction_length, maximum_operations_per_instruction all symbolic) one instruction of symbolic bytes is run by the real '
            'decode loop; emitted row, post-state, consumption and file table equal the DWARF 5 6.2.5 reference step',
       bounds={'quick': 'LEB128 operands up to 3 bytes', 'thorough': 'LEB128 operands up to 5 bytes'}),
-    H('h5_1_header', h_header, _header_instances, expect=('ok',),
+    H('h5_1_header', h_header, _header_instances, decoy='all', expect=('ok',),
       desc='line program header v2-v5 (DWARF32/64, both byte orders): scalar fields symbolic, opcode_base in {1,10,13,16}, v2-4 directory/file '
            'tables, v5 entry formats (string, line_strp, strp, udata, data1/2/4/8, data16, block), legacy-compatible views, program extent, cache'),
     H('h5_3_seq', h_seq, _seq_instances, expect=('ok',),
